@@ -289,7 +289,7 @@ func TestPropStreams(t *testing.T) { ev.RunProp(t, "C17", streamUnit) }
 
 func TestReplay(t *testing.T) {
 	tr := rtUnit.Replayer()
-	ev.Replay(t, map[string]ev.Replayer{rtUnit.Name: tr, trUnit.Name: trUnit.Replayer(), typeUnit.Name: typeUnit.Replayer(), valueUnit.Name: valueUnit.Replayer(), streamUnit.Name: streamUnit.Replayer(),
+	ev.Replay(t, map[string]ev.Replayer{rtUnit.Name: tr, trUnit.Name: trUnit.Replayer(), typeUnit.Name: typeUnit.Replayer(), valueUnit.Name: valueUnit.Replayer(), streamUnit.Name: streamUnit.Replayer(), typeErrUnit.Name: typeErrUnit.Replayer(),
 		"fuzz-roundtrip": tr, "fuzz-token": streamUnit.Replayer()})
 }
 
